@@ -202,6 +202,8 @@ class Replayer:
         self.drift = []
         self.down = False
         self.cut = False
+        self.escaped = ""
+        self.unrealisable = False
 
     def bind(self, mid, cid):
         self.causal[mid] = cid
@@ -286,7 +288,8 @@ class Replayer:
             if cause == "deliver":
                 step = None
                 for q in list(b.queues):
-                    if w.is_event_queue(q) and b.queues[q] and b.queues[q][0]["props"].message_id == mid and b.eligible_consumers(q):
+                    if w.is_event_queue(q) and b.queues[q] and self.causal.get(b.queues[q][0]["props"].message_id) == trig and b.eligible_consumers(q):
+                        mid = b.queues[q][0]["props"].message_id      # (a handler run twice around a crash publishes the same causal id twice)
                         step = ("dlv", q, b.eligible_consumers(q)[0])
                 if step is None:
                     self.drift.append(("not-enabled", label, trig))
@@ -294,7 +297,8 @@ class Replayer:
             else:
                 step = None
                 for q in list(b.queues):
-                    if w.is_reply_queue(q) and b.queues[q] and W._strip_corr(b.queues[q][0]["props"].correlation_id or "") == mid and b.eligible_consumers(q):
+                    if w.is_reply_queue(q) and b.queues[q] and self.causal.get(W._strip_corr(b.queues[q][0]["props"].correlation_id or "")) == trig and b.eligible_consumers(q):
+                        mid = W._strip_corr(b.queues[q][0]["props"].correlation_id or "")
                         step = ("dlv", q, b.eligible_consumers(q)[0])
                 if step is None:
                     self.drift.append(("not-enabled", label, trig))
@@ -305,11 +309,18 @@ class Replayer:
             kind = cause
             cand = None
             for iname, h in w._timer_list():
-                if h.kind == kind and (kind == "orphanscan" or mid in h.trig):
+                if h.kind == kind and (kind == "orphanscan" or any(self.causal.get(m) == trig for m in h.trig)):
                     cand = ("timer", iname, h.seq)
+                    mid = next((m for m in h.trig if self.causal.get(m) == trig), mid)
                     break
             if cand is None:
                 self.drift.append(("not-enabled", "timer:" + kind, trig))
+                return False
+            # the model has no clock: a path that fires a timer while another one is due strictly earlier cannot
+            # happen in time -- it is not followed any further (and is not drift)
+            mine = next(h for (_, h) in w._timer_list() if h.seq == cand[2])
+            if any(h.due < mine.due - 1e-9 for (_, h) in w._timer_list()):
+                self.unrealisable = True
                 return False
             if not self._do(cand, crash_after):
                 return True
@@ -345,6 +356,12 @@ class Replayer:
             w.quiesce("D0")
             w.run_to_d1()
             w.quiesce("D1")
+        except Exception as ex:           # an exception escaping a frame is an observation, not a harness failure
+            import traceback
+            self.escaped = "%s: %s | %s" % (type(ex).__name__, ex, traceback.format_exc()[-600:])
+            if w.rec.in_frame:
+                w.rec.end_frame()
+            w.rec.emit("escaped", err=self.escaped[:300])
         finally:
             ev = w.rec.events
             notes = w.notes()
@@ -368,7 +385,7 @@ def replay_paths(scn, dot_path, max_paths=None):
             if bnode not in parsed:
                 parsed[bnode] = parse_state(nodes[bnode])
             crash_after, prefix = None, None
-            if label.startswith("Frame"):
+            if label.startswith("Frame") or label.startswith("Next"):      # (TLC labels the timer frames "Next")
                 # does the model crash before this frame's operations are all executed?
                 k = 0
                 j = i + 1
@@ -379,9 +396,9 @@ def replay_paths(scn, dot_path, max_paths=None):
                 if j < len(path) and path[j][1].startswith("Crash") and k < len(total):
                     prefix = total[:k]
                     crash_after = sum(1 for o in prefix if o["op"] in ("pub", "ack", "note"))
-                    crashes.append({"frame": len([1 for x in path[:i] if x[1].startswith("Frame")]), "op": crash_after})
+                    crashes.append({"frame": len([1 for x in path[:i] if x[1].startswith(("Frame", "Next"))]), "op": crash_after})
             elif label.startswith("Crash") and not rp.down:
-                crashes.append({"frame": len([1 for x in path[:i] if x[1].startswith("Frame")])})
+                crashes.append({"frame": len([1 for x in path[:i] if x[1].startswith(("Frame", "Next"))])})
             if not rp.step(label, parsed[bnode], crash_after, prefix):
                 ok = False
                 break
@@ -390,7 +407,7 @@ def replay_paths(scn, dot_path, max_paths=None):
             rp.down = False
         ev, notes = rp.finish()
         last = parsed.get(path[-1][2], {})
-        results.append({"events": ev, "notes": notes, "drift": rp.drift, "followed": ok, "length": len(path), "crashes": crashes,
+        results.append({"events": ev, "notes": notes, "drift": rp.drift, "followed": ok, "length": len(path), "crashes": crashes, "escaped": rp.escaped, "unrealisable": rp.unrealisable,
                         "labels": [l.split("(")[0] for (_, l, _) in path]})
     return results, {"nodes": len(nodes), "edges": nedges, "paths": len(paths)}
 
